@@ -102,17 +102,15 @@ def run(ctx: Ctx):
             ops = json.loads(p.read_text())["ops"]
             run_history(ctx, ops, "corpus", corpus=True)
     # (a) bounded exhaustive
-    depth = 4 if ctx.thorough else 3
-    base_variants = [0, 1] if ctx.thorough else [0]
-    for bv in base_variants:
+    # quick: all sequences <= 3 on base world 0; thorough: <= 4 on base world 0 and <= 3 on base world 1
+    plan = [(0, 4), (1, 3)] if ctx.thorough else [(0, 3)]
+    for bv, depth in plan:
         base = base_world_ops(bv)
         for n in range(0, depth + 1):
-            # thorough: depth 4 only on a sub-alphabet to stay within the time budget
-            alpha = SYMBOLIC_ALPHABET
-            for seq in itertools.product(alpha, repeat=n):
+            for seq in itertools.product(SYMBOLIC_ALPHABET, repeat=n):
                 run_history(ctx, base + list(seq), f"exhaustive{bv}")
     # (b) random
-    for _ in range(ctx.budget(300, 12000)):
+    for _ in range(ctx.budget(300, 8000)):
         run_history(ctx, random_history(rng), "random")
 
 
